@@ -54,17 +54,24 @@ class Pipes:
         if len(pipes) == 0:
             raise CobaException("No pipes were passed to join.")
 
-        if len(pipes) == 1 and hasattr(pipes[0],'read'):
+        def inner(pipe):
+            #a Foreach is the kind of pipe that it wraps
+            return inner(pipe._pipe) if isinstance(pipe, Foreach) else pipe
+
+        first = inner(pipes[0 ])
+        last  = inner(pipes[-1])
+
+        if not all(hasattr(inner(pipe),'filter') for pipe in pipes[1:-1]):
+            raise CobaException("A pipe that is not a filter was passed to join between the first and last pipe.")
+
+        if len(pipes) == 1 and hasattr(first,'read'):
             return SourceFilters(*pipes)
 
-        if len(pipes) == 1 and hasattr(pipes[0],'filter'):
+        if len(pipes) == 1 and hasattr(first,'filter'):
             return FiltersFilter(*pipes)
 
-        if len(pipes) == 1 and hasattr(pipes[0],'write'):
+        if len(pipes) == 1 and hasattr(first,'write'):
             return FiltersSink(*pipes)
-
-        first = pipes[0 ] if not isinstance(pipes[0 ], Foreach) else pipes[0 ]._pipe
-        last  = pipes[-1] if not isinstance(pipes[-1], Foreach) else pipes[-1]._pipe
 
         if hasattr(first,'read') and hasattr(last,'write'):
             return SourceSink(*pipes)
